@@ -122,6 +122,7 @@ func cmdCheck(args []string) {
 	cfg.DumpDir = *dump
 	if *tier == "thorough" {
 		cfg.TimeoutMs = 120000
+		cfg.CoverReturns = true
 	}
 	pkgs, ok := propPackages[*prop]
 	if !ok {
